@@ -24,21 +24,23 @@ def tasks(tier):
                 ts.append(Task('verifHarness_C16_enable', [kind, hb, sr]))
     ts.append(Task('verifHarness_C16_tick', []))
     for known in (0, 1):
-        for other in (0, 1):
+        for other in (0, 1, 2):
             ts.append(Task('verifHarness_C16_request', [known, other]))
     ts += [Task('verifHarness_C16_two', [s]) for s in (0, 1)]
+    ts.append(Task('verifHarness_C16_cleanup', []))
     return ts
 
 
 def required_reach(tier):
-    return ['C16/HS1', 'C16/H2', 'C16/S2', 'C16/S3']
+    return ['C16/HS1', 'C16/H2', 'C16/S2', 'C16/S3', 'C16/S4']
 
 
 def bounds(tier):
     return {'enable': '6 dialect kinds (none, standard, no id 0, non-standard id 0, heartbeat only, non-standard id 66) x heartbeat disabled x stream requests enabled',
             'tick': 'one tick; configured period, system type, autopilot type (bytes) and dialect version symbolic',
             'two_heartbeats': 'two ArduPilot heartbeats in a row from the same sender or from two components of one system, arbitrary clock readings: the second triggers again iff the sender differs or >= 30 s passed',
-            'request': 'one incoming frame: sender ids, autopilot byte, type, configured frequency, clock reading and the sender\'s '
+            'cleanup': 'one cleanup tick over a table entry of arbitrary age (dropped iff >= 30 s old), then an ArduPilot heartbeat from an unknown sender: processed without blocking (the table lock is released), sender asked',
+            'request': 'one incoming frame (heartbeat, another message, another message with an Autopilot field): sender ids, autopilot byte, type, configured frequency, clock reading and the sender\'s '
                        'table entry (absent / present with an arbitrary earlier time) symbolic; an unrelated table entry is checked untouched'}
 
 
@@ -47,6 +49,6 @@ OUTSIDE = ['that ticks arrive at all / periodically (runtime timer)', 'interleav
            'system / autopilot type values above 255 (the wire field is 8 bits)']
 STUBS = ['time.NewTicker: a channel that delivers one tick; period logged', 'time.Now: verifClockRef.Add(d) for an arbitrary non-decreasing d (real Time.Add executed)',
          'time.Time.Sub / Equal executed from real source', 'channels: single-goroutine model; request/event channels are sinks',
-         'reflect.* intrinsics', 'sync.Mutex: no-op']
+         'reflect.* intrinsics', 'sync.Mutex: lock table (a Lock on a held mutex blocks)']
 ASSUMPTIONS = ['go/ssa faithfully represents the compiled code', 'the gosym channel/select model is faithful for a single goroutine',
                'counterexamples of kernel harnesses are confirmed by concrete re-execution in the interpreter, not natively', 'z3 is sound']
